@@ -112,7 +112,7 @@ def global_names(f):
     if not f.get("noprobe"):
         add("P"); add("_space")
     for let in (f.get("lets", []) if f["style"] == "def" else []):
-        if let[0] == "try":
+        if let[0] in ("try", "guard"):
             walk(let[2], local); walk(let[3], local); local = local | {let[1]}
         else:
             walk(let[1], local); local = local | {let[0]}
